@@ -5,11 +5,13 @@ import PLS.Lemmas.History
 namespace PLS
 open Index
 
-/-- **C06 (an unparsable version changes nothing but the cached text).** The fixtures and usages
-    of the last valid version stay in effect. -/
+/-- **C06 (an unparsable version changes nothing but the cached text and the memo version).** The
+    fixtures and usages of the last valid version stay in effect; the version-keyed memos are
+    invalidated, because what other files get through this one is read from its current text. -/
 theorem C06_invalid_keeps (pfx : Path) (cl : Bool) (st : Index) (f : Path) (v : Version)
     (h : v.parsed = none) :
-    analyze pfx cl st f v = ({ st with cache := ainsert st.cache f v }, false) := by
+    analyze pfx cl st f v =
+      ({ st with cache := ainsert st.cache f v, epoch := st.epoch + 1, version := st.version + 1 }, false) := by
   unfold analyze
   simp [h]
 
